@@ -237,7 +237,9 @@ class PositionAnyWord(Unit):
             s = Sink()
             Position.send_with_context(p, s, ctx)
             want = spec_position_bytes(i, p.x, p.y, p.z)
-            if s.data != data:
+            if not (-(1 << 25) <= p.x < (1 << 25) and -(1 << 11) <= p.y < (1 << 11) and -(1 << 25) <= p.z < (1 << 25)):
+                bad = 'decoded %r: a coordinate outside its signed range' % (p,)
+            elif s.data != data:
                 bad = 'decoded %r, re-encoded %s' % (p, s.data.hex())
             elif data not in want:
                 bad = 'decoded %r whose prescribed encoding is %s' % (p, ' or '.join(b.hex() for b in want))
